@@ -677,10 +677,12 @@ class GenM:
                     self.mark_nonconst("v%d" % v)
                 self.f("M:arg-by-Referenz")
             else:
+                # since 91b5d4a a variable may be passed by value and by Referenz in one call (the elision rule decides)
+                allow_alias = self.rng.random() < 0.5
                 for _ in range(8):
                     sn = self.snap()
                     e = self.text(d + 1) if ty == "T" else self.lst(d + 1)
-                    if not any(re.search(r"\bv%d\b" % u, e[1]) for u in used.values()):
+                    if allow_alias or not any(re.search(r"\bv%d\b" % u, e[1]) for u in used.values()):
                         break
                     self.restore(sn)
                 else:
@@ -1463,6 +1465,7 @@ def main():
         body = j.src[len(MHEAD):].replace("m" * (MARK1 - 1), "<%d x m>" % (MARK1 - 1)).replace("n" * (MARK2 - 1), "<%d x n>" % (MARK2 - 1))
         path = os.path.join(ck.replay_dir, "%s_model_mismatch.ddp" % PID)
         open(path, "w").write(j.src)
+        open(path[:-4] + ".model", "w").write("M 2000 %s %s\n" % (argv[0], j.sx or ""))
         ck.broken_obligation("correspondence of coq/Lower/Own.v with the compiler fails (%s) at -O %d, tape %s; program saved as %s" % (what, j.opt, argv, path),
                              (j.sx or "")[-900:] + "\n" + body[-1000:])
     ck.cov.update(dict(
